@@ -174,6 +174,13 @@ func checkSliceWith(src *atlas.Built, sl []ref.Sl, what string, snap atlas.Snap,
 					return fail("wrong-shape[KF:leading-step-floor]", "slice %s of shape %v: expected shape %v, got %v (floor instead of ceil on the leading axis)", slListStr(sl), src.View.Shape, mv.Shape, d.Shape())
 				}
 			}
+			if len(fm.Cell) == 1 && len(d.Shape()) == 0 {
+				// the two recorded defects composed: the floor leaves ONE element, and a one-element result is a scalar
+				// (F-C02-single-element-scalar)
+				if cells, okc := (&atlas.Built{DT: src.DT, T: d, Root: src.Root}).APCells(); okc && ref.EqInts(cells, fm.Cell) {
+					return fail("wrong-shape[KF:leading-step-floor]", "slice %s of shape %v: expected shape %v, got the scalar () (floor instead of ceil on the leading axis leaves one element)", slListStr(sl), src.View.Shape, mv.Shape)
+				}
+			}
 		}
 		// extra axis dropped?
 		all := make([]bool, len(mv.Shape))
